@@ -138,14 +138,17 @@ func c01Opts(tier string, spec world.Spec) hOpts {
 		{Name: "not-bearer", TokenType: "mac"},
 	}
 	o := hOpts{Spec: spec, MaxDev: 1, Faults: true, RedisFaults: spec.Store == "redis", BadIdP: bad, Logout: true, Attacker: true, Advance: true,
-		GoodIdP: []world.Answer{world.Honest, {Name: "honest-no-refresh", NoRefresh: true}}, MaxSessions: 3}
+		GoodIdP: []world.Answer{world.Honest, {Name: "honest-no-refresh", NoRefresh: true},
+			{Name: "honest-refresh-omits-id-token", NoIDToken: true, KeepRT: true}}, MaxSessions: 3}
 	if tier == "thorough" {
 		o.MaxDev = 2
 		o.Pairs = true
 		o.ExtraPaths = true
-		o.GoodIdP = append(o.GoodIdP, world.Answer{Name: "honest-no-expires-in", NoExpiresIn: true},
-			world.Answer{Name: "honest-refresh-omits-id-token", NoIDToken: true, KeepRT: true})
+		o.GoodIdP = append(o.GoodIdP, world.Answer{Name: "honest-no-expires-in", NoExpiresIn: true})
 		o.MaxSessions = 4
+	}
+	if spec.Replicas == 2 {
+		o.Faults, o.RedisFaults, o.BadIdP, o.MaxSessions = false, false, nil, 2
 	}
 	if spec.Abs > 0 {
 		o.Prefix = c01LoginPrefix
@@ -176,6 +179,8 @@ func c01Run(run *ev.Run) {
 		// expired sessions: absolute time-out of 900 s with tokens that live 600 s, starting from a completed login
 		{Store: "memory", Forward: true, Logout: true, Abs: 900, TokenLife: 600},
 		{Store: "redis", Forward: true, Logout: true, Abs: 900, TokenLife: 600},
+		// two service replicas on one Redis server, every request served by either
+		{Store: "redis", Forward: true, Logout: true, Replicas: 2},
 	} {
 		if spec.Store == "memory" && !spec.Forward && run.Tier != "thorough" {
 			continue
@@ -188,8 +193,10 @@ func c01Run(run *ev.Run) {
 		}
 		m := o.model(c01Monitor(run, spec))
 		m.MaxDepth = depth
-		if run.Tier == "thorough" {
-			m.CheckMerges = -1 // depth 6 fills the time budget; the merge check runs in the quick tier and in the pairs pass
+		if run.Tier == "thorough" || (spec.Abs == 0 && spec.Replicas == 0) {
+			// the two big searches fill their time budget; the merge check runs on the expiry and replica specs here, and
+			// in the thorough tier's pairs pass on all of them
+			m.CheckMerges = -1
 		}
 		st := seqx.Explore(run, m)
 		if run.Tier == "thorough" {
